@@ -20,8 +20,11 @@
 package ed25519ge
 
 import (
+	"bytes"
 	"fmt"
 	"go/ast"
+	"go/parser"
+	"go/printer"
 	"go/token"
 	"path/filepath"
 	"strings"
@@ -791,7 +794,65 @@ func run(repo string) (string, error) {
 		}
 		s += fmt.Sprintf("def c_%s : Nat := %s\n", c, strings.Trim(b.Value, "\""))
 	}
+	// point.go and the kyber.Scalar wrappers of scalar.go: every statement of every method the model covers, rendered by
+	// go/printer (comments dropped, white space collapsed). The hand model (Model/Ed25519Ge.lean pt*, Model/Ed25519Scalar.lean,
+	// Drivers/C20.lean) was written against these statements; Props/C20Pins.lean compares them with the text it was written
+	// against, so that an edited method body is a broken obligation and not only a differential disagreement.
+	wr, err := wrapperPins(dir)
+	if err != nil {
+		return "", err
+	}
+	s += wr
 	s += "\nend Dos.Gen.Ed25519Ge\n"
+	return s, nil
+}
+
+// PointMethods / ScalarMethods: the methods pinned as text
+var PointMethods = []string{"MarshalSize", "MarshalBinary", "UnmarshalBinary", "Equal", "Set", "Clone", "Null", "Base", "Add", "Sub", "Neg", "Mul"}
+var ScalarMethods = []string{"Equal", "Set", "Clone", "setInt", "SetInt64", "toInt", "Zero", "One", "Add", "Sub", "Neg", "Mul", "Div", "Inv", "Pick", "SetBytes", "MarshalSize", "MarshalBinary", "UnmarshalBinary"}
+
+func printed(fset *token.FileSet, n ast.Node) string {
+	var b bytes.Buffer
+	printer.Fprint(&b, fset, n)
+	return strings.Join(strings.Fields(b.String()), " ")
+}
+
+func wrapperPins(dir string) (string, error) {
+	s := "\n/-! ### point.go, scalar.go (kyber wrappers): statements as printed source text -/\n\n"
+	for _, src := range []struct {
+		file, recv, prefix string
+		methods            []string
+	}{{"point.go", "point", "point", PointMethods}, {"scalar.go", "scalar", "scalar", ScalarMethods}} {
+		fset := token.NewFileSet()
+		f, err := parser.ParseFile(fset, filepath.Join(dir, src.file), nil, 0) // comments dropped
+		if err != nil {
+			return "", err
+		}
+		for _, m := range src.methods {
+			fd := ex.FuncDecl(f, src.recv, m)
+			if fd == nil || fd.Body == nil {
+				return "", fmt.Errorf("%s: method %s.%s not found", src.file, src.recv, m)
+			}
+			lines := []string{ex.LeanStr(printed(fset, fd.Type))}
+			for _, st := range fd.Body.List {
+				lines = append(lines, ex.LeanStr(printed(fset, st)))
+			}
+			s += fmt.Sprintf("/-- %s.%s of %s: signature, then one string per top-level statement -/\ndef %s_%s_src : List String :=\n  [%s]\n", src.recv, m, src.file, src.prefix, m, strings.Join(lines, ",\n   "))
+		}
+		// the struct itself
+		for _, d := range f.Decls {
+			gd, ok := d.(*ast.GenDecl)
+			if !ok || gd.Tok != token.TYPE {
+				continue
+			}
+			for _, sp := range gd.Specs {
+				ts := sp.(*ast.TypeSpec)
+				if ts.Name.Name == src.recv {
+					s += fmt.Sprintf("def %s_type_src : String := %s\n", src.prefix, ex.LeanStr(printed(fset, ts)))
+				}
+			}
+		}
+	}
 	return s, nil
 }
 
